@@ -78,6 +78,10 @@ def extract(config="default", repo=None):
     key = _tree_hash(repo, config)
     out = os.path.join(CACHE, "facts-%s-%s.json" % (config, key))
     if os.path.exists(out) and os.path.getsize(out) > 1000:
+        try:
+            os.utime(out)  # least-recently-used pruning below
+        except OSError:
+            pass
         return out
     lock = open(os.path.join(CACHE, "lock-%s" % config), "w")
     fcntl.flock(lock, fcntl.LOCK_EX)
@@ -111,10 +115,10 @@ def extract(config="default", repo=None):
             raise RuntimeError("fact extraction failed (cargo exit %s); the tree does not build" % p.returncode)
         if os.path.getmtime(out) < t0 - 1:
             raise RuntimeError("fact file is stale: the wrapper was skipped")
-        # prune old fact files of this config (keep the 6 newest)
+        # prune old fact files of this config (keep the 12 most recently used)
         olds = sorted((f for f in os.listdir(CACHE) if f.startswith("facts-%s-" % config)),
                       key=lambda f: os.path.getmtime(os.path.join(CACHE, f)))
-        for f in olds[:-6]:
+        for f in olds[:-12]:
             try:
                 os.remove(os.path.join(CACHE, f))
             except OSError:
@@ -126,7 +130,8 @@ def extract(config="default", repo=None):
 
 
 class Facts:
-    def __init__(self, path, repo):
+    def __init__(self, path, repo, config="default"):
+        self.config = config
         with open(path) as fh:
             self.raw = json.load(fh)
         if self.raw.get("crate") != "p2sh":
@@ -177,7 +182,7 @@ class Facts:
 
 def load(config="default", repo=None):
     repo = repo or repo_root()
-    return Facts(extract(config, repo), repo)
+    return Facts(extract(config, repo), repo, config)
 
 
 def read_source(rel, repo=None):
